@@ -229,10 +229,10 @@ impl Machine {
                 }
                 let amount = kv.mag.to_u128().unwrap_or(u128::MAX);
                 let reg_words = if op.starts_with("u.") {
-                    let r = if s.int("f") == 2 { d % NU } else { a % NU };
+                    let r = if s.int("f") == 2 || s.int("f") == 4 { d % NU } else { a % NU };
                     words(&self.u[r])
                 } else {
-                    let r = if s.int("f") == 2 { d % NI } else { a % NI };
+                    let r = if s.int("f") == 2 || s.int("f") == 4 { d % NI } else { a % NI };
                     words(self.i[r].magnitude())
                 };
                 if op.ends_with("shl") && reg_words > 0 && (amount > 40_000 || reg_words + (amount as usize) / 32 > CAP_WORDS) {
@@ -249,7 +249,8 @@ impl Machine {
             }
             "u.pow" | "i.pow" => {
                 let kv = scalar_ref(t.min(5), k);
-                let e = kv.mag.to_u128().unwrap_or(u128::MAX);
+                // form 3 is the inherent pow(u32)
+                let e = if s.int("f") >= 3 { (k as u32) as u128 } else { kv.mag.to_u128().unwrap_or(u128::MAX) };
                 let bits = if op == "u.pow" { denote_u(&self.u[a % NU]).bits() } else { denote_i(&self.i[a % NI]).mag.bits() };
                 if bits > 1 && (e > 4096 || bits as u128 * e > (CAP_WORDS as u128) * 32) {
                     return Expect::Skip;
@@ -551,21 +552,7 @@ impl Machine {
                 }
                 // ---- arrivals from generators / deserialisers (seams S1-S3) ------------------------
                 "u.arrive" => {
-                    let x: Option<BigUint> = match f {
-                        0 => {
-                            use num_bigint::RandBigInt;
-                            let mut r = crate::seams::SimRng::from_words(&s.list32("v"));
-                            Some(r.gen_biguint(k as u64))
-                        }
-                        1 => {
-                            let d: Vec<u64> = s.list("v").to_vec();
-                            let mut toks = vec![crate::scn_c17::Tok::Seq(Some(d.len()))];
-                            toks.extend(d.iter().map(|&x| crate::scn_c17::Tok::U32(x as u32)));
-                            toks.push(crate::scn_c17::Tok::End);
-                            crate::scn_c17::de_tokens::<BigUint>(toks, crate::scn_c17::HintMode::Exact, None).0.ok()
-                        }
-                        _ => arrive_std_u(f, k, &s.list8("v"), obs),
-                    };
+                    let x: Option<BigUint> = arrive_u(f, k, s, obs);
                     match x {
                         Some(x) => self.put_u(d, x, obs),
                         None => obs.none = true,
@@ -1027,22 +1014,7 @@ impl Machine {
                     self.put_i(d, x, obs);
                 }
                 "i.arrive" => {
-                    let x: Option<BigInt> = match f {
-                        0 => {
-                            use num_bigint::RandBigInt;
-                            let mut r = crate::seams::SimRng::from_words(&s.list32("v"));
-                            Some(r.gen_bigint(k as u64))
-                        }
-                        1 => {
-                            let dd: Vec<u64> = s.list("v").to_vec();
-                            let mut toks = vec![crate::scn_c17::Tok::Tuple(2), crate::scn_c17::Tok::I8(s.int("sg").clamp(-1, 1) as i8), crate::scn_c17::Tok::Seq(Some(dd.len()))];
-                            toks.extend(dd.iter().map(|&x| crate::scn_c17::Tok::U32(x as u32)));
-                            toks.push(crate::scn_c17::Tok::End);
-                            toks.push(crate::scn_c17::Tok::End);
-                            crate::scn_c17::de_tokens::<BigInt>(toks, crate::scn_c17::HintMode::Exact, None).0.ok()
-                        }
-                        _ => arrive_std_i(f, k, &s.list8("v"), obs),
-                    };
+                    let x: Option<BigInt> = arrive_i(f, k, s, obs);
                     match x {
                         Some(x) => self.put_i(d, x, obs),
                         None => obs.none = true,
@@ -1487,7 +1459,7 @@ pub fn reset_written(m: &mut Machine, s: &Step) {
 }
 
 // Arrivals that exist only with the std-only optional features (arbitrary, quickcheck).
-#[cfg(feature = "std")]
+#[cfg(feature = "stdopt")]
 fn arrive_std_u(f: i128, k: i128, bytes: &[u8], _obs: &mut Obs) -> Option<BigUint> {
     match f {
         2 => {
@@ -1507,7 +1479,7 @@ fn arrive_std_u(f: i128, k: i128, bytes: &[u8], _obs: &mut Obs) -> Option<BigUin
         }
     }
 }
-#[cfg(feature = "std")]
+#[cfg(feature = "stdopt")]
 fn arrive_std_i(f: i128, k: i128, bytes: &[u8], _obs: &mut Obs) -> Option<BigInt> {
     match f {
         2 => {
@@ -1526,13 +1498,62 @@ fn arrive_std_i(f: i128, k: i128, bytes: &[u8], _obs: &mut Obs) -> Option<BigInt
         }
     }
 }
-#[cfg(not(feature = "std"))]
+#[cfg(not(feature = "stdopt"))]
 fn arrive_std_u(_f: i128, _k: i128, _bytes: &[u8], obs: &mut Obs) -> Option<BigUint> {
     obs.skipped = true;
     None
 }
-#[cfg(not(feature = "std"))]
+#[cfg(not(feature = "stdopt"))]
 fn arrive_std_i(_f: i128, _k: i128, _bytes: &[u8], obs: &mut Obs) -> Option<BigInt> {
+    obs.skipped = true;
+    None
+}
+
+// Arrivals through the RNG (f = 0) and the serde token deserialiser (f = 1): need the `opt` features.
+#[cfg(feature = "opt")]
+fn arrive_u(f: i128, k: i128, s: &Step, obs: &mut Obs) -> Option<BigUint> {
+    match f {
+        0 => {
+            use num_bigint::RandBigInt;
+            let mut r = crate::seams::SimRng::from_words(&s.list32("v"));
+            Some(r.gen_biguint(k as u64))
+        }
+        1 => {
+            let d: Vec<u64> = s.list("v").to_vec();
+            let mut toks = vec![crate::scn_c17::Tok::Seq(Some(d.len()))];
+            toks.extend(d.iter().map(|&x| crate::scn_c17::Tok::U32(x as u32)));
+            toks.push(crate::scn_c17::Tok::End);
+            crate::scn_c17::de_tokens::<BigUint>(toks, crate::scn_c17::HintMode::Exact, None).0.ok()
+        }
+        _ => arrive_std_u(f, k, &s.list8("v"), obs),
+    }
+}
+#[cfg(feature = "opt")]
+fn arrive_i(f: i128, k: i128, s: &Step, obs: &mut Obs) -> Option<BigInt> {
+    match f {
+        0 => {
+            use num_bigint::RandBigInt;
+            let mut r = crate::seams::SimRng::from_words(&s.list32("v"));
+            Some(r.gen_bigint(k as u64))
+        }
+        1 => {
+            let dd: Vec<u64> = s.list("v").to_vec();
+            let mut toks = vec![crate::scn_c17::Tok::Tuple(2), crate::scn_c17::Tok::I8(s.int("sg").clamp(-1, 1) as i8), crate::scn_c17::Tok::Seq(Some(dd.len()))];
+            toks.extend(dd.iter().map(|&x| crate::scn_c17::Tok::U32(x as u32)));
+            toks.push(crate::scn_c17::Tok::End);
+            toks.push(crate::scn_c17::Tok::End);
+            crate::scn_c17::de_tokens::<BigInt>(toks, crate::scn_c17::HintMode::Exact, None).0.ok()
+        }
+        _ => arrive_std_i(f, k, &s.list8("v"), obs),
+    }
+}
+#[cfg(not(feature = "opt"))]
+fn arrive_u(_f: i128, _k: i128, _s: &Step, obs: &mut Obs) -> Option<BigUint> {
+    obs.skipped = true;
+    None
+}
+#[cfg(not(feature = "opt"))]
+fn arrive_i(_f: i128, _k: i128, _s: &Step, obs: &mut Obs) -> Option<BigInt> {
     obs.skipped = true;
     None
 }
